@@ -3,7 +3,9 @@ package c20
 import (
 	"fmt"
 	"os"
+	"os/exec"
 	"path/filepath"
+	"strings"
 	"testing"
 
 	"pgregory.net/rapid"
@@ -21,6 +23,21 @@ func TestMain(m *testing.M) {
 		os.Exit(2)
 	}
 	root = filepath.Join(scratch, fmt.Sprintf("c20-world-%d", os.Getpid()))
+	// real export data (records with real_export): the stub compiles `const Ident = "<identity>"`
+	// with the toolchain's compiler and keeps the archives in a store shared by all workers
+	realGo := os.Getenv("VERIF_REALGO")
+	if realGo == "" {
+		realGo = "go"
+	}
+	td, err := exec.Command(realGo, "env", "GOTOOLDIR").Output()
+	if err != nil {
+		fmt.Fprintln(os.Stderr, "c20: cannot locate the compiler:", err)
+		os.Exit(2)
+	}
+	os.Setenv("VERIF_COMPILE", filepath.Join(strings.TrimSpace(string(td)), "compile"))
+	store := filepath.Join(scratch, "c20-store")
+	os.MkdirAll(store, 0o755)
+	os.Setenv("VERIF_STUB_STORE", store)
 	os.Setenv("PATH", stub+":"+os.Getenv("PATH"))
 	os.Setenv("VERIF_STUB_DIR", root)
 	m.Run()
